@@ -657,8 +657,8 @@ Lemma run_start_spec s pr qn cn sn f s' pr' o :
   (forall mq mc ms, o = SOk mq mc ms ->
      lookup_ok cfg_q mq qn (s_q s') /\ lookup_ok cfg_c mc cn (s_c s') /\ lookup_ok cfg_s ms sn (s_s s')).
 Proof.
-  intros (Hq & Hc & Hs) (Vq & Vc & Vs) E. unfold run_start in E.
-  destruct (prepare cfg_q (s_q s) (pr_q pr) qn (fault_for f 0)) as [[q' vq] rq] eqn:Eq.
+  intros (Hq & Hc & Hs) (Vq & Vc & Vs) E. unfold run_start in E. cbn zeta in E.
+  destruct (prepare cfg_q (s_q s) (pr_q pr) qn (fault_at f 0 0)) as [[q' vq] rq] eqn:Eq.
   pose proof (prepare_spec cfg_q cfg_q_wf cfg_q_skipdel cfg_q_read cfg_q_late _ _ _ _ _ _ _ Hq Vq Eq) as (Rq & Wq & Sq & _).
   assert (Hstab : forall (q1 c1 s1 : pers),
             (forall n id, sm_get n (p_rows (s_q s)) = Some id -> skip cfg_q id = false -> sm_get n (p_rows q1) = Some id) ->
@@ -670,12 +670,12 @@ Proof.
   destruct rq as [mq|e].
   2:{ inversion E; subst. split; [split; [exact Rq|split; [exact Hc|exact Hs]]|]. split; [split; [exact Wq|split; [exact Vc|exact Vs]]|].
       split; [apply Hstab; auto|discriminate]. }
-  destruct (prepare cfg_c (s_c s) (pr_c pr) cn (fault_for f 1)) as [[c' vc] rc] eqn:Ec.
+  destruct (prepare cfg_c (s_c s) (pr_c pr) cn (fault_at f 1 _)) as [[c' vc] rc] eqn:Ec.
   pose proof (prepare_spec cfg_c cfg_c_wf cfg_c_skipdel cfg_c_read cfg_c_late _ _ _ _ _ _ _ Hc Vc Ec) as (Rc & Wc & Sc & _).
   destruct rc as [mc|e].
   2:{ inversion E; subst. split; [split; [exact Rq|split; [exact Rc|exact Hs]]|]. split; [split; [exact Wq|split; [exact Wc|exact Vs]]|].
       split; [apply Hstab; auto|discriminate]. }
-  destruct (prepare cfg_s (s_s s) (pr_s pr) sn (fault_for f 2)) as [[t' vs] rs] eqn:Es.
+  destruct (prepare cfg_s (s_s s) (pr_s pr) sn (fault_at f 2 _)) as [[t' vs] rs] eqn:Es.
   pose proof (prepare_spec cfg_s cfg_s_wf cfg_s_skipdel cfg_s_read cfg_s_late _ _ _ _ _ _ _ Hs Vs Es) as (Rs & Ws & Ss & _).
   destruct rs as [ms|e].
   2:{ inversion E; subst. split; [split; [exact Rq|split; [exact Rc|exact Rs]]|]. split; [split; [exact Wq|split; [exact Wc|exact Ws]]|].
